@@ -255,31 +255,32 @@ func runC02Case(run *runner, idx int64, cc *checkCase, gs, ws []int) string {
 							run.count("timeout_no_decision", 1)
 							continue
 						}
-						// re-run both sides to separate a deterministic difference from nondeterminism
-						same := 0
-						var seenD, seenB []string
-						for k := 0; k < 5; k++ {
-							d2 := runAt(g, w, rd, qi)
-							seenD = append(seenD, d2.String())
-							if d2.String() == d.String() {
-								same++
+						// Under a binding limit the engine's answer may legitimately vary
+						// between runs (which path reaches a shared subject set first is a
+						// race between its pipelined sub-checks; a node reached deep first is
+						// cut, reached shallow first it is expanded). The property compares
+						// behaviours, so both sides are re-run (interleaved) and only
+						// disjoint outcome sets are a violation.
+						setD := map[string]int{d.String(): 1}
+						setB := map[string]int{b.String(): 1}
+						for k := 0; k < 12; k++ {
+							setD[runAt(g, w, rd, qi).String()]++
+							setB[runAt(effDepth(rd, g), w, 0, qi).String()]++
+						}
+						disjoint := true
+						for k := range setD {
+							if setB[k] > 0 {
+								disjoint = false
 							}
 						}
-						for k := 0; k < 5; k++ {
-							b2 := runAt(effDepth(rd, g), w, 0, qi)
-							seenB = append(seenB, b2.String())
-							if b2.String() == b.String() {
-								same++
-							}
-						}
-						kind := "deterministic"
-						if same < 10 {
-							kind = "nondeterministic"
+						if !disjoint {
+							run.count("nondeterministic_under_binding_limit", 1)
+							continue
 						}
 						run.violate(violation{Index: idx, Sub: fmt.Sprintf("%s/q%d/g%d/w%d/r%d", modeName, qi, g, w, rd),
-							Sig:     fmt.Sprintf("C02:request-depth-differs:%s:%s-vs-%s", kind, d.kindOnly(), b.kindOnly()),
-							Summary: fmt.Sprintf("check %s with request max-depth %d under global %d (width %d) answered %s, but %s under global %d with no request depth (reruns: %v / %v)", cc.queries[qi], rd, g, w, d, b, effDepth(rd, g), seenD, seenB),
-							Case:    cc, Detail: map[string]any{"g": g, "w": w, "r": rd, "query": cc.queries[qi].String(), "reruns_request": seenD, "reruns_global": seenB}})
+							Sig:     fmt.Sprintf("C02:request-depth-differs:%s-vs-%s", d.kindOnly(), b.kindOnly()),
+							Summary: fmt.Sprintf("check %s with request max-depth %d under global %d (width %d) answers %v, but %v under global %d with no request depth (13 runs each, interleaved)", cc.queries[qi], rd, g, w, setD, setB, effDepth(rd, g)),
+							Case:    cc, Detail: map[string]any{"g": g, "w": w, "r": rd, "query": cc.queries[qi].String(), "outcomes_request": setD, "outcomes_global": setB}})
 						verdict = "violation"
 					}
 				}
